@@ -1,7 +1,7 @@
 """C13 -- KeyedList is a list with unique keys and a coherent key index."""
 import shutil
 
-from .. import common, pipeline, tla
+from .. import canary, common, pipeline, tla
 from .. import d_keyedlist as D
 
 DEVS = ["setitem_delete_first", "extend_stepwise", "reverse_by_swaps"]
@@ -88,6 +88,7 @@ def main(tier):
                     rjobs.append((fl, typed, common.seed() * 1000 + w, nh, 60, 12, 2))
         r2 = pipeline.run_judged(_random, rjobs, "J_KeyedList", replay_fn=_replay, key_fn=_key, nontrivial_fn=_nontrivial)
         rep.mark("random")
+        pipeline.canaries(rep, "J_KeyedList", r1["samples"] + r2["samples"], canary.keyedlist, want=16)
         res = {"ante": {k: r1["ante"].get(k, 0) + r2["ante"].get(k, 0) for k in set(r1["ante"]) | set(r2["ante"])}}
         for clause, (replay, detail) in r1["bad"] + r2["bad"]:
             rep.violation(clause, replay, detail)
